@@ -161,7 +161,7 @@ class Syn(object):
         if self.tag:
             t += ['[', self.tag[0], str(self.tag[1]), ']', 'IMPLICIT']
         t += self.written.split(' ')
-        t += ref_tokens(self.ref)
+        t += ref_tokens(self.ref, getattr(self, 'enum_style', None))
         return t
 
     # ---- expected tree
@@ -186,16 +186,19 @@ class Syn(object):
         return ('SimpleSyntax', w, sub)
 
 
-def ref_tokens(ref):
+def ref_tokens(ref, enum_style=None):
     if not ref:
         return []
     kind, items = ref
     if kind == 'enum':
+        seps, trailing = enum_style or ([',' ] * len(items), False)
         t = ['{']
         for i, (lab, val) in enumerate(items):
-            if i:
+            if i and seps[i % len(seps)] == ',':
                 t.append(',')
             t += [lab, '(', str(val), ')']
+        if trailing:
+            t.append(',')
         return t + ['}']
     t = ['(']
     if kind == 'size':
@@ -361,6 +364,8 @@ def tokens(d, v1=False):
             if i:
                 t.append(',')
             t += [col] + syn.split(' ')
+        if getattr(d, 'trailing_comma', False):
+            t.append(',')
         return t + ['}']
     if k == 'macro':
         return [d.name, 'MACRO', d.body, 'END']
@@ -491,8 +496,11 @@ class Module(object):
             t += ['EXPORTS', self.exports + ';']
         if self.imports:
             t.append('IMPORTS')
-            for mod, syms in self.imports:
-                t += name_list(syms) + ['FROM', mod]
+            for gi, (mod, syms) in enumerate(self.imports):
+                t += name_list(syms)
+                if gi in getattr(self, 'import_trailing_comma', ()):
+                    t.append(',')
+                t += ['FROM', mod]
             t.append(';')
         for d in self.decls:
             t += tokens(d)
